@@ -34,27 +34,36 @@ Print Assumptions C09_report_block_indent_all_refuted.
 
 (* curl, given that argument vector, re-sends the visible part of the request *)
 Theorem C09_reproduces_partial : forall known r,
-  header_names_ok known r = true -> no_empty_header_value known r = true ->
+  header_names_ok known r = true -> header_values_ok known r = true ->
   body_not_at r = true -> url_not_option r = true ->
   curl_sem (argv_of known r) = CurlSends (visible known r).
 Proof. exact reproduces. Qed.
 Print Assumptions C09_reproduces_partial.
 
+(* regression sentinel: the rule before the repair (every header printed as Name: value) loses a header with
+   an empty value, the present rule (Name;) re-sends it *)
+Theorem C09_prefix_rule_refuted_empty_header : exists known r,
+  curl_sem (argv_of_prefix known r) <> CurlSends (visible known r) /\
+  curl_sem (argv_of known r) = CurlSends (visible known r).
+Proof. exists [], r_empty_header. exact prefix_rule_refuted_empty_header. Qed.
+Print Assumptions C09_prefix_rule_refuted_empty_header.
+
 (* ... and the unrestricted statement is false of the code as it is *)
-Theorem C09_reproduces_refuted_empty_header : exists known r,
+Theorem C09_reproduces_refuted_blank_header : exists known r,
+  header_names_ok known r = true /\ body_not_at r = true /\ url_not_option r = true /\
   curl_sem (argv_of known r) <> CurlSends (visible known r).
-Proof. exists [], r_empty_header. exact reproduces_refuted_empty_header. Qed.
-Print Assumptions C09_reproduces_refuted_empty_header.
+Proof. exists [], r_blank_header. repeat split; try reflexivity. exact reproduces_refuted_blank_header. Qed.
+Print Assumptions C09_reproduces_refuted_blank_header.
 
 Theorem C09_reproduces_refuted_at_body : exists known r,
-  header_names_ok known r = true /\ no_empty_header_value known r = true /\
+  header_names_ok known r = true /\ header_values_ok known r = true /\
   curl_sem (argv_of known r) <> CurlSends (visible known r).
 Proof. exists [], r_at_body. repeat split; try reflexivity. exact reproduces_refuted_at_body. Qed.
 Print Assumptions C09_reproduces_refuted_at_body.
 
 Theorem C09_hypotheses_satisfiable : exists r,
   safe_word (method r) = true /\ req_no_nul [] r = true /\ header_names_ok [] r = true /\
-  no_empty_header_value [] r = true /\ body_not_at r = true /\ url_not_option r = true /\
-  length (argv_of [] r) = 9%nat.
+  header_values_ok [] r = true /\ body_not_at r = true /\ url_not_option r = true /\
+  length (argv_of [] r) = 11%nat.
 Proof. exists r_ok. exact r_ok_hyps. Qed.
 Print Assumptions C09_hypotheses_satisfiable.
